@@ -88,13 +88,15 @@ def parseHolds (t : String) : Option (List (Option Nat)) :=
   if t == "-" then some [] else
   (t.splitOn ",").mapM fun x => if x == "n" then some none else x.toNat?.map some
 
-def bucket (ms : Nat) : Nat := (ms + 400) / 1000
-
 /-- the connections of worker `w` when `holds` are dispatched round-robin over `workers` workers -/
 def holdsOf (holds : List (Option Nat)) (workers w : Nat) : List (Option Nat) :=
   (holds.zipIdx.filter fun p => p.2 % workers == w).map (·.1)
 
+/-- what the model says about a server-level scenario: which futures resolve (`ServerCmd`), and that
+the completion is neither early nor late (`Worker.replyTime`: never before every connection of a
+worker has ended unless the timeout elapsed, never after the bound) -/
 def srvObs (ws : List String) : String :=
+  if kv ws "skip" == some "ports" then "skipped" else
   let workers := ((kv ws "workers").bind (·.toNat?)).getD 1
   let timeout := ((kv ws "timeout").bind (·.toNat?)).getD 1
   let mode : Option Bool := match kv ws "mode" with | some "g" => some true | some "f" => some false | _ => none
@@ -102,32 +104,36 @@ def srvObs (ws : List String) : String :=
     | none => some none | some "g" => some (some true) | some "f" => some (some false) | _ => none
   match mode, (kv ws "holds").bind parseHolds, second with
   | some g, some holds, some second =>
-    if workers == 0 || workers > 4 || holds.length > 6 then "bad-op" else
+    if workers == 0 || workers > 64 || holds.length > 64 || timeout > 10 then "bad-op" else
     let dropFut := kv ws "drop" == some "1"
     let paused := kv ws "paused" == some "1"
     let calls : List ServerCmd.Call := (if paused then [.pause] else []) ++ [.stop g] ++ (match second with | some g2 => [.stop g2] | none => [])
     let run := ServerCmd.serve workers calls
     let stopAck := if paused then 1 else 0
-    -- when the blocking points of the handled `Stop` are released
-    let tWorkers := if g then ((List.range workers).map fun w => (Worker.replyTime (timeout * 1000) 0 (holdsOf holds workers w)).1).foldl max 0 else 0
-    let k := toString (bucket tWorkers)
-    let stop := if dropFut then "dropped" else if run.log.contains (.ack stopAck) then k else "never"
-    let server := if run.returned then k else "never"
+    let T := timeout * 1000
+    -- per worker: reply time and the lower bound the property gives (all its connections ended, or the timeout)
+    let replies := (List.range workers).map fun w => Worker.replyTime T 0 (holdsOf holds workers w)
+    let early := g && (List.range workers).any fun w =>
+      let fin := holdsOf holds workers w
+      let r := Worker.replyTime T 0 fin
+      Worker.unfinished fin r.1 != 0 && r.1 < T
+    let bound := Src.wkTickFirstMs + ((T + Src.wkTickNextMs - 1) / Src.wkTickNextMs) * Src.wkTickNextMs
+    let late := replies.any fun r => r.1 > bound
+    let stop := if dropFut then "dropped" else if run.log.contains (.ack stopAck) then "resolved" else "never"
+    let server := if run.returned then "resolved" else "never"
     let sec := match second with
       | none => "-"
-      | some _ => if run.log.contains (.ack (stopAck + 1)) || run.log.contains (.ackDropped (stopAck + 1)) then k else "never"
-    s!"stop={stop} server={server} second={sec} after=none"
+      | some _ => if run.log.contains (.ack (stopAck + 1)) || run.log.contains (.ackDropped (stopAck + 1)) then "resolved" else "never"
+    s!"stop={stop} server={server} second={sec} early={bit early} late={bit late} after=none"
   | _, _, _ => "bad-op"
 
 def sigObs (ws : List String) : String :=
-  let timeout := ((kv ws "timeout").bind (·.toNat?)).getD 1
+  if kv ws "skip" == some "ports" then "skipped" else
   let sig : Option Src.Signal := match kv ws "sig" with | some "int" => some .Int | some "term" => some .Term | some "quit" => some .Quit | _ => none
   match sig, (kv ws "hold").bind parseHolds with
-  | some sig, some [h] =>
+  | some sig, some [_] =>
     let run := ServerCmd.serve 1 [.signal sig]
-    let t := if Src.mapSignalGraceful sig then (Worker.replyTime (timeout * 1000) 0 [h]).1 else 0
-    -- `force_system_stop`: the command loop sleeps 300 ms before stopping the System
-    if run.returned then s!"exit={(t + 300 + 100) / 1000}" else "exit=never"
+    if run.returned then "exit=ok early=0" else "exit=never early=0"
   | _, _ => "bad-op"
 
 def step (st : State) (line : String) : State × String :=
